@@ -38,6 +38,23 @@ class Namespace(typing.Generic[T]):
         self.inner_nsp = []
         self.symt = symt
 
+    def _find_outer_function_with_local(
+        self, name: str
+    ) -> typing.Optional["NamespaceFunction"]:
+        """
+        Find the nearest outer function namespace in which `name` is a local variable
+        """
+        outer = self.outer_nsp
+        while not isinstance(outer, NamespaceGlobal):
+            if isinstance(outer, NamespaceFunction):
+                try:
+                    if outer.symt.lookup(name).is_local():
+                        return outer
+                except KeyError:
+                    pass
+            outer = outer.outer_nsp
+        return None
+
     def get_assign(self, name: str, value_expr: expr) -> expr:
         """
         In different namespaces,
@@ -200,16 +217,7 @@ class NamespaceFunction(Namespace[symtable.Function]):
                 return False
         except KeyError:
             return False
-        outer = self.outer_nsp
-        while not isinstance(outer, NamespaceGlobal):
-            if isinstance(outer, NamespaceFunction):
-                try:
-                    if outer.symt.lookup(name).is_local():
-                        return True
-                except KeyError:
-                    pass
-            outer = outer.outer_nsp
-        return False
+        return self._find_outer_function_with_local(name) is not None
 
     def get_load_name(self, name: str) -> expr:
         for comp in self.comp_stack:
@@ -247,11 +255,6 @@ class NamespaceClass(Namespace[symtable.Class]):
     # keys   --> nonlocal names of THIS namespace
     # values --> where the nonlocal name was born
 
-    # global names used in lambdas and comprehensions
-    # (since python 3.12 list/set/dict comprehensions are inlined,
-    # only lambdas and generator expressions have their own symbol tables)
-    globals_used_in_comp: set[str]
-
     def __init__(self, symt: symtable.Class, stack: list[Namespace]):
         # don't push/pop the stack in this function
         super().__init__(symt, stack)
@@ -260,7 +263,6 @@ class NamespaceClass(Namespace[symtable.Class]):
         self.outer_nsp = stack[-1]
         self.outer_nsp.inner_nsp.append(self)
         self.outer_nonlocal_map = {}
-        self.globals_used_in_comp = set()
 
         for symbol in self.symt.get_symbols():
             if not (symbol.is_nonlocal() or symbol.is_free()):
@@ -324,15 +326,21 @@ class NamespaceClass(Namespace[symtable.Class]):
                 keywords=[],
             )
 
+    def _get_load_global(self, name: str) -> expr:
+        if self._find_outer_function_with_local(name) is not None:
+            # A plain name would load the local variable of the outer function
+            return Subscript(
+                value=Call(func=Name(id="globals", ctx=Load()), args=[], keywords=[]),
+                slice=Constant(value=name),
+                ctx=Load(),
+            )
+        return Name(id=name, ctx=Load())
+
     def get_load_name(self, name: str) -> expr:
         for comp in self.comp_stack:
             if name in comp.target_names:
                 return Name(id=name, ctx=Load())
 
-        if name in self.globals_used_in_comp:
-            return Name(id=name, ctx=Load())
-
-        symbol = self.symt.lookup(name)
         if name in self.outer_nonlocal_map:
             outer = self.outer_nonlocal_map[name]
             return Subscript(
@@ -340,8 +348,29 @@ class NamespaceClass(Namespace[symtable.Class]):
                 slice=Constant(value=name),
                 ctx=Load(),
             )
-        elif symbol.is_global():
+
+        if self.comp_stack:
+            # Inside a lambda or a comprehension, the class members are invisible.
+            # The name is a variable of an outer function or a global
+            outer_function = self._find_outer_function_with_local(name)
+            if (
+                outer_function is not None
+                and name in outer_function.inner_nonlocal_names
+            ):
+                return Subscript(
+                    value=outer_function.nonlocal_dict_expr,
+                    slice=Constant(value=name),
+                    ctx=Load(),
+                )
             return Name(id=name, ctx=Load())
+
+        try:
+            is_global = self.symt.lookup(name).is_global()
+        except KeyError:
+            is_global = True
+
+        if is_global:
+            return self._get_load_global(name)
         else:
             # a class member
             # if the member is not assigned yet,
@@ -357,7 +386,7 @@ class NamespaceClass(Namespace[symtable.Class]):
                     slice=Constant(value=name),
                     ctx=Load(),
                 ),
-                orelse=Name(id=name, ctx=Load()),
+                orelse=self._get_load_global(name),
             )
 
 
@@ -367,23 +396,6 @@ def _comp_check(symt: symtable.Function):
     if ".0" not in symt.get_parameters():
         return False
     return True
-
-
-def update_globals_from_lambda_or_comp(symt: symtable.Function, stack: list[Namespace]):
-    if not isinstance(stack[-1], NamespaceClass):
-        return
-
-    _globals: set[str] = set()
-    comp_stack = [symt]
-    while comp_stack:
-        symt = comp_stack.pop()
-        for symbol in symt.get_symbols():
-            if symbol.is_global():
-                _globals.add(symbol.get_name())
-        for child_symt in symt.get_children():
-            assert isinstance(child_symt, symtable.Function)
-            comp_stack.append(child_symt)
-    stack[-1].globals_used_in_comp.update(_globals)
 
 
 def generate_nsp(symt: symtable.SymbolTable, configs: Configs):
@@ -421,11 +433,8 @@ def generate_nsp(symt: symtable.SymbolTable, configs: Configs):
                 child_symt = typing.cast(
                     symtable.Function, child_symt
                 )  # making type-checker happy
-                if child_symt.get_name() == "lambda":
-                    update_globals_from_lambda_or_comp(child_symt, generate_stack)
-                    continue
-                if _comp_check(child_symt):
-                    update_globals_from_lambda_or_comp(child_symt, generate_stack)
+                if child_symt.get_name() == "lambda" or _comp_check(child_symt):
+                    # lambdas and comprehensions are handled by expr_transform
                     continue
 
                 generate_stack.append(NamespaceFunction(child_symt, generate_stack))
